@@ -152,7 +152,7 @@ CHECKS = {
             'Generated trees and archives (sub-directories, duplicate basenames, archives nested to depth 3, invalid '
             'UTF-8) are served through FileReader / ZipReader / HttpReader(stub urlopen) / CallbackReader; a returned '
             'file must be an allowed variant of the request with exactly its decoded bytes and mtime, not-found is '
-            'only valid when no required variant exists, the .index mapping wins; 62 URL shapes map to the reader '
+            'only valid when no required variant exists, the .index mapping wins; all URL shapes of the table map to the reader '
             'kind and parameters their scheme and extension denote, alone and in lists of 2-4 URLs per call.',
             'The variant reference (required / allowed sets) is my reading of the statement; any matching file is '
             'accepted when several exist; no network: FTP only by dispatch, HTTP through a stub.', '4/C14'),
